@@ -1304,7 +1304,7 @@ void PearsonCorrelMatrix(matrix* msrc, matrix* mdst)
         a += square(xres);
         b += square(yres);
       }
-      if((int)floor(a*b) == 0){
+      if(a == 0 || b == 0){
         mdst->data[k][j] = mdst->data[j][k] = +0.f;
       }
       else{
